@@ -4,6 +4,7 @@
 From ClapModel Require Import Base.Bytes Base.Machine Base.Utf8 Lex.OsStrExtModel.
 From ClapModel Require Import Parse.Cmd Parse.Build Parse.Valid Parse.Matcher Parse.Errors Parse.Validator Parse.Parser.
 From ClapModel Require Import ParseProofs.Globals.
+From ClapModel Require ParseProofs.PendingFlush.
 From Coq Require Import ZArith.
 From RecordUpdate Require Import RecordSet.
 Import RecordSetNotations.
@@ -234,12 +235,17 @@ Definition post (c : cmd) (parsed : res ps) : res ps :=
   | RPanic s => RPanic s
   | RErr e st =>
       if is_set s_ignore_errors c then
-        let st1 := match add_env c st with ROk s => s | RErr _ s => s | RPanic _ => st end in
+        let st0 := match resolve_pending c st with ROk s => s | RErr _ s => s | RPanic _ => st end in
+        let st1 := match add_env c st0 with ROk s => s | RErr _ s => s | RPanic _ => st0 end in
         let st2 := match add_defaults c st1 with ROk s => s | RErr _ s => s | RPanic _ => st1 end in
-        match add_env c st, add_defaults c st1 with
-        | RPanic s, _ => RPanic s
-        | _, RPanic s => RPanic s
-        | _, _ => RErr e st2
+        match resolve_pending c st with
+        | RPanic s => RPanic s
+        | _ =>
+          match add_env c st0, add_defaults c st1 with
+          | RPanic s, _ => RPanic s
+          | _, RPanic s => RPanic s
+          | _, _ => RErr e st2
+          end
         end
       else RErr e st
   | ROk st =>
@@ -253,6 +259,21 @@ Lemma gmw_unfold f c toks st0 :
   get_matches_with (S f) c toks st0 = post c (parsed_of f c toks st0).
 Proof. reflexivity. Qed.
 
+(** the error branch of [post] is the named function of PendingFlush.v (repaired statement order: the pending
+    occurrence, the environment, the defaults -- each result dropped) *)
+Lemma post_err_unfold c e st :
+  post c (RErr e st) = if is_set s_ignore_errors c then PendingFlush.ignored_post c e st else RErr e st.
+Proof. reflexivity. Qed.
+
+Lemma post_err_not_ok c e st s : post c (RErr e st) <> ROk s.
+Proof. rewrite post_err_unfold. destruct (is_set s_ignore_errors c); [apply PendingFlush.ignored_post_not_ok|discriminate]. Qed.
+
+Lemma post_err_same_error c e st e' s : post c (RErr e st) = RErr e' s -> e' = e.
+Proof.
+  rewrite post_err_unfold. destruct (is_set s_ignore_errors c); [apply PendingFlush.ignored_post_err|].
+  intros [= <- _]. reflexivity.
+Qed.
+
 Lemma post_keeps_sub c s parsed : holds (S_ s) (S_ s) parsed -> holds (S_ s) (S_ s) (post c parsed).
 Proof.
   destruct parsed as [st|e st|x]; cbn [holds post]; intros Hs; [| |exact I].
@@ -261,12 +282,12 @@ Proof.
     eapply holds_bind; [apply add_defaults_sub; exact H2|]. intros st3 H3.
     unfold vres_to_res. destruct (validate c (mt st3)); cbn [holds]; auto.
   - destruct (is_set s_ignore_errors c); [|exact Hs].
-    pose proof (add_env_sub c s st Hs) as He.
-    destruct (add_env c st) as [s1|e1 s1|x1]; cbn [holds] in He; [| |exact I].
-    + pose proof (add_defaults_sub c s s1 He) as Hd.
-      destruct (add_defaults c s1) as [s2|e2 s2|x2]; cbn [holds] in Hd |- *; auto.
-    + pose proof (add_defaults_sub c s s1 He) as Hd.
-      destruct (add_defaults c s1) as [s2|e2 s2|x2]; cbn [holds] in Hd |- *; auto.
+    pose proof (resolve_pending_sub c s st Hs) as Hr.
+    destruct (resolve_pending c st) as [s0|e0 s0|x0]; cbn [holds] in Hr; [| |exact I].
+    all: pose proof (add_env_sub c s s0 Hr) as He.
+    all: destruct (add_env c s0) as [s1|e1 s1|x1]; cbn [holds] in He; [| |exact I].
+    all: pose proof (add_defaults_sub c s s1 He) as Hd.
+    all: destruct (add_defaults c s1) as [s2|e2 s2|x2]; cbn [holds] in Hd |- *; auto.
 Qed.
 
 (** ** external subcommand: every remaining token, in order, byte for byte *)
@@ -349,8 +370,9 @@ Proof.
       rewrite Hsub, Hx. reflexivity.
     + discriminate.
   - exfalso. cbn [post] in H. destruct (is_set s_ignore_errors c); [|discriminate].
-    destruct (add_env c stp) as [s1|e1 s1|x1]; [| |discriminate];
-      (destruct (add_defaults c s1) as [s2|e2 s2|x2]; discriminate).
+    destruct (resolve_pending c stp) as [s0|e0 s0|x0]; [| |discriminate];
+      (destruct (add_env c s0) as [s1|e1 s1|x1]; [| |discriminate];
+        (destruct (add_defaults c s1) as [s2|e2 s2|x2]; discriminate)).
   - discriminate.
 Qed.
 
